@@ -24,7 +24,16 @@ def main():
         # a table generator that fails closed is reported by its own check
         print("setup: some table generator failed (reported by the owning check)")
     failed = []
-    for m in modules():
+    mods = modules()
+    # one parallel build of every property's closure first (the per-property loop below then finds
+    # everything up to date; a failure here is found again, and reported, by that loop)
+    try:
+        with BuildLock():
+            ensure_makefile()
+            run(["make", "-k", "-j16"] + ["Props/%s.vo" % m.PROP for m in mods], cwd=COQ, timeout=7200)
+    except Exception as e:  # never let the shortcut break setup
+        print("setup: parallel pre-build skipped (%s)" % e)
+    for m in mods:
         prop = m.PROP
         with BuildLock():
             ensure_makefile()
